@@ -11,6 +11,9 @@ def spec(tier):
                     continue
                 sym = dict(c0=I(0, 2), c1=I(0, 2), c2=I(0, 2), c3=I(0, 2), k0=I(0, 1), d0=I(1, 2))
                 fixed = dict(tps=tps, poll_ticks=poll, c4=1, k1=0, s1=s1, s2=s2, d1=1, pools=2, K=8)
+                if not th:
+                    sym.pop("c3")
+                    fixed["c3"] = 2
                 obs.append(CH(name=f"protocol_tps{tps}_poll{poll}_s{int(s1)}{int(s2)}", harness="c19.rest_protocol", sym=sym, fixed=fixed,
                               timeout=1500))
     tsym = dict(c0=I(0, 2), c1=I(0, 2), c2=I(0, 2), c3=I(0, 2), d0=I(1, 2))
